@@ -1,6 +1,6 @@
 (** * C14 - NFT draw picks min(available, payers) distinct payers; fees reconcile. *)
 From Coq Require Import Permutation.
-From LP Require Import Proofs.Tactics Proofs.LedgerBase Proofs.Gates Proofs.Frames Proofs.Confirm Proofs.Nft Proofs.Examples Proofs.NftLedger Proofs.Setup Proofs.SetupNft.
+From LP Require Import Proofs.Tactics Proofs.LedgerBase Proofs.Gates Proofs.Frames Proofs.Confirm Proofs.Nft Proofs.Examples Proofs.NftLedger Proofs.Setup Proofs.SetupNft Proofs.SetupNgt.
 Open Scope N_scope.
 
 (** paying the fee: only in the confirmation window, only after the SFT set-up, only with confirmed
@@ -119,6 +119,15 @@ Proof.
   exact (conj (ni_fee _ Hi) (conj (ni_win _ Hi) (ni_cn _ Hi))).
 Qed.
 
+(** the same for the combined contract (nft-and-guaranteed-tickets): v1 allocation with guarantees,
+    blacklisting with ticket refunds, release of guarantees and fee refunds *)
+Theorem C14_fee_from_deployment_ngt : forall (H : list N -> list N) w, setup_reach_ngt H w ->
+  FeeInv w /\ nft_winners (st w) = [] /\ claimable_nft (st w) = 0.
+Proof.
+  intros H w Hr. destruct (setup_reach_ngt_inv H w Hr) as (l & _ & Hi).
+  exact (conj (ni_fee _ Hi) (conj (ni_win _ Hi) (ni_cn _ Hi))).
+Qed.
+
 Example C14_setup_nonvacuous :
   setup_reach_nft sha256 nft_confirmed /\
   (nft_payers (st nft_confirmed), confirmed (st nft_confirmed) 2, confirmed (st nft_confirmed) 3,
@@ -143,5 +152,6 @@ Print Assumptions C14_fee_claim.
 Print Assumptions C14_fee_owner.
 Print Assumptions C14_fee_drained.
 Print Assumptions C14_fee_from_deployment.
+Print Assumptions C14_fee_from_deployment_ngt.
 Print Assumptions C14_setup_nonvacuous.
 Print Assumptions C14_nonvacuous.
